@@ -507,6 +507,240 @@ theorem wire_unguarded_panics (cfg : Cfg) (wexts : List WExt) (sn : Bytes) (cach
   rw [wire_unguarded_panics_iff cfg wexts sn cache rsid force rand time out _ hsent hparse]
   simp [applyExts_supportedVersions, baseHello, ClientHello.empty]
 
+def exampleCfgW : Cfg :=
+  { vers := 0x0303, random := [], insertTimestamp := false, sessionId := [], suites := [0x002f], comp := [0], exts := [] }
+
+/-! ### T1: every built-in extension type is accounted for; constants and tables are the extracted ones -/
+
+/-- **extension_types_accounted** — the go/ast list of ALL types of package tls implementing `ClientExtension`
+    (methods Marshal / CheckImplemented / WriteToConfig), with their struct fields, is exactly the list of Go types
+    the constructors of the model type `Ext` stand for: a new built-in extension type, or a new field of an existing
+    one, makes this theorem fail until it is modelled (Marshal model, T2 tie `c29 ext`, parse-back theorem). -/
+theorem extension_types_accounted :
+    Gen.extensionTypes = builtinTypes ∧
+      Gen.clientExtensionMethods = ["CheckImplemented", "Marshal", "WriteToConfig"] := ⟨rfl, rfl⟩
+
+/-- every constructor of `Ext` models one of the extracted types, and `extKinds` has one representative of
+    every constructor -/
+theorem goType_accounted (e : Ext) : goType e ∈ Gen.extensionTypes ∧ ∃ k ∈ extKinds, goType k = goType e := by
+  cases e <;> exact ⟨by simp [goType, Gen.extensionTypes], by simp [goType, extKinds]⟩
+
+/-- the extension-type constants written by the encoders / switched on by the parser model, and
+    `pointFormatUncompressed` of `PointFormatExtension.CheckImplemented`, are those of tls/common.go (go/ast) -/
+theorem ext_consts_match :
+    Gen.extConsts =
+      [("extensionServerName", extensionServerName), ("extensionStatusRequest", extensionStatusRequest),
+       ("extensionSupportedCurves", extensionSupportedCurves), ("extensionSupportedPoints", extensionSupportedPoints),
+       ("extensionSignatureAlgorithms", extensionSignatureAlgorithms), ("extensionALPN", extensionALPN),
+       ("extensionSCT", extensionSCT), ("extensionExtendedMasterSecret", extensionExtendedMasterSecret),
+       ("extensionSessionTicket", extensionSessionTicket), ("extensionPreSharedKey", extensionPreSharedKey),
+       ("extensionEarlyData", extensionEarlyData), ("extensionSupportedVersions", extensionSupportedVersions),
+       ("extensionCookie", extensionCookie), ("extensionPSKModes", extensionPSKModes),
+       ("extensionCertificateAuthorities", 47),
+       ("extensionSignatureAlgorithmsCert", extensionSignatureAlgorithmsCert), ("extensionKeyShare", extensionKeyShare),
+       ("extensionRenegotiationInfo", extensionRenegotiationInfo), ("extensionExtendedRandom", extensionExtendedRandom),
+       ("pointFormatUncompressed", 0)] := rfl
+
+/-- `supportedVersions` (now extracted, no longer copied): strictly descending 16-bit values, which is what
+    `minSupported` (last entry not above the handshake version) relies on -/
+theorem supported_versions_table :
+    Gen.supportedVersions = [0x0304, 0x0303, 0x0302, 0x0301] ∧
+      supportedVersionsTable = [0x0304, 0x0303, 0x0302, 0x0301] := by decide
+
+/-! ### CheckImplemented / CheckImplementedExtensions (`c29 ext`, `c29 check`) -/
+
+/-- `CheckImplementedExtensions` succeeds iff every extension's `CheckImplemented` does; only curves, point
+    formats and signature algorithms can fail, exactly when an entry is not in the extracted table -/
+theorem checkExts_iff (l : List Ext) : checkExts l = true ↔ ∀ e ∈ l, checkExt e = true := by
+  simp [checkExts]
+
+theorem checkExt_curves_iff (l : List UInt16) :
+    checkExt (.curves l) = true ↔ ∀ c ∈ l, c.toNat ∈ Gen.curvePrefs := by
+  simp [checkExt]
+
+theorem checkExt_sigalgs_iff (l : List UInt16) :
+    checkExt (.sigalgs l) = true ↔ ∀ a ∈ l, a.toNat ∈ Gen.skxSigAlgs := by
+  simp [checkExt]
+
+theorem checkExt_points_iff (l : Bytes) : checkExt (.points l) = true ↔ ∀ f ∈ l, f = 0 := by
+  simp [checkExt]
+
+theorem checkExt_other (e : Ext) (h1 : ∀ l, e ≠ .curves l) (h2 : ∀ l, e ≠ .points l) (h3 : ∀ l, e ≠ .sigalgs l) :
+    checkExt e = true := by
+  cases e <;> simp_all [checkExt]
+
+/-- `marshal` consults exactly `CheckImplementedExtensions` -/
+theorem marshal_checks (cfg : Cfg) (force : Bool) (rand : Bytes) (time : Nat) (h : checkExts cfg.exts = false) :
+    marshal cfg force rand time = none := by
+  unfold checkExts at h
+  simp [marshal, h]
+
+/-! ### boundary behaviour: a value that exceeds what its length prefix can carry
+
+  As coded: no encoder returns an error or panics (the model `marshalExt` is total and T2-tied on the boundary
+  values by `c29 ext`); the CONTENTS are never truncated, only the length bytes are (low 16 / low 8 bits). -/
+
+/-- for ALL values of ALL types: the encoding is the 4-byte header followed by the complete body -/
+theorem marshalExt_length (e : Ext) (hn : e ≠ .null) : (marshalExt e).length = 4 + (extBody e).length := by
+  rw [marshalExt_frame e hn]
+  simp only [List.length_append, u16_length]
+  omega
+
+theorem readU16_u16_mod (n : Nat) (r : Bytes) : readU16 (u16 n ++ r) = some (n % 65536, r) := by
+  simp [u16, readU16]; omega
+
+/-- for ALL values of ALL types: the two length bytes of the extension header carry the body length mod 65536 -/
+theorem marshalExt_length_field (e : Ext) (hn : e ≠ .null) :
+    readU16 ((marshalExt e).drop 2) = some ((extBody e).length % 65536, extBody e) := by
+  rw [marshalExt_frame e hn]
+  simp only [u16, List.cons_append, List.nil_append, List.drop_succ_cons, List.drop_zero]
+  exact readU16_u16_mod _ _
+
+/-- … hence the length field is CORRECT (the reader returns exactly the body) iff the body is below 65536 bytes:
+    `extOk`'s size limits are necessary, not only sufficient -/
+theorem marshalExt_length_field_correct_iff (e : Ext) (hn : e ≠ .null) :
+    readU16LP ((marshalExt e).drop 2) = some (extBody e, []) ↔ (extBody e).length < 65536 := by
+  constructor
+  · intro h
+    have h2 := marshalExt_length_field e hn
+    unfold readU16LP at h
+    rw [h2] at h
+    simp only [readBytes] at h
+    split at h
+    · cases h
+    · simp only [Option.some.injEq, Prod.mk.injEq] at h
+      have hl := congrArg List.length h.1
+      simp only [List.length_take] at hl
+      have := Nat.mod_lt (extBody e).length (by decide : 65536 > 0)
+      omega
+  · intro h
+    rw [marshalExt_frame e hn]
+    simp only [u16, List.cons_append, List.nil_append, List.drop_succ_cons, List.drop_zero]
+    have := readU16LP_lp (extBody e) [] h
+    simpa [u16] using this
+
+/-- SessionTicketExtension, ALL tickets (also over-long ones): the parser reads back the first
+    `len % 65536` bytes as the ticket — silent truncation of what is READ, the remaining bytes of the ticket
+    are parsed as further extensions. Inside the domain (`len < 65536`) this is `ext_parse_back_ticket`. -/
+theorem ticket_parse_back_all (t rest : Bytes) (m : ClientHello) :
+    parseExts (marshalExt (.ticket t) ++ rest) m =
+      parseExts (t.drop (t.length % 65536) ++ rest)
+        { m with ticketSupported := true, sessionTicket := t.take (t.length % 65536) } := by
+  have hk : t.length % 65536 ≤ t.length := Nat.mod_le _ _
+  have hlt : t.length % 65536 < 65536 := Nat.mod_lt _ (by decide)
+  have hu : u16 t.length = u16 (t.take (t.length % 65536)).length := by
+    rw [List.length_take, Nat.min_eq_left hk]
+    simp only [u16, List.cons.injEq, and_true]
+    refine ⟨?_, ?_⟩ <;> apply UInt8.toNat_inj.mp <;> simp <;> omega
+  have hsplit : t = t.take (t.length % 65536) ++ t.drop (t.length % 65536) := (List.take_append_drop _ _).symm
+  have hm : marshalExt (.ticket t) ++ rest =
+      u16 extensionSessionTicket ++ (u16 (t.take (t.length % 65536)).length ++
+        (t.take (t.length % 65536) ++ (t.drop (t.length % 65536) ++ rest))) := by
+    have h1 : t ++ rest = t.take (t.length % 65536) ++ (t.drop (t.length % 65536) ++ rest) := by
+      rw [← List.append_assoc, List.take_append_drop]
+    simp only [marshalExt, List.append_assoc]
+    rw [h1, hu]
+  rw [hm, parseExts_step (by decide) _ _ (by rw [List.length_take]; omega)]
+  have harm := arm_ticket (t.take (t.length % 65536)) m
+  simp only [extBody] at harm
+  simp [parseExt, extensionSessionTicket, extensionServerName, extensionStatusRequest, extensionSupportedCurves,
+    extensionSupportedPoints, harm, finish]
+
+/-- the boundary itself: a ticket of exactly 65536 bytes is written with length field 0 and read back as an EMPTY
+    ticket; the 65536 ticket bytes are then parsed as extensions -/
+theorem ticket_65536_reads_back_empty (t rest : Bytes) (m : ClientHello) (h : t.length = 65536) :
+    parseExts (marshalExt (.ticket t) ++ rest) m =
+      parseExts (t ++ rest) { m with ticketSupported := true, sessionTicket := [] } := by
+  rw [ticket_parse_back_all, h]
+  simp
+
+/-! ### WriteToConfig (`c29 wtc`): what the fingerprint writes into the Config -/
+
+/-- the full-Config loop refines the loop used by the wire model: same extension list, same ServerName -/
+theorem wtcFullLoop_refines (fuel i : Nat) (exts : List WExt) (c : WCfg) :
+    (wtcFullLoop fuel i exts c).1 = (wtcLoop fuel i exts c.serverName).1 ∧
+      (wtcFullLoop fuel i exts c).2.serverName = (wtcLoop fuel i exts c.serverName).2 := by
+  induction fuel generalizing i exts c with
+  | zero => simp [wtcFullLoop, wtcLoop]
+  | succ n ih =>
+    unfold wtcFullLoop wtcLoop
+    cases hw : exts[i]? with
+    | none => simp
+    | some w =>
+      simp only
+      cases he : w.e <;> simp only [wtcExt] <;> exact ih _ _ _
+
+/-- the fields `WriteToConfig` takes from the fingerprint itself, and the fields it clears, whatever the extensions
+    (with or without Autopopulate): CipherSuites, MaxVersion = HandshakeVersion, ClientRandom; no heartbeat, no
+    extended random -/
+theorem wtcFullLoop_fixed (fuel i : Nat) (exts : List WExt) (c : WCfg) :
+    let r := (wtcFullLoop fuel i exts c).2
+    r.cipherSuites = c.cipherSuites ∧ r.maxVersion = c.maxVersion ∧ r.clientRandom = c.clientRandom ∧
+      r.heartbeat = c.heartbeat ∧ r.extendedRandom = c.extendedRandom := by
+  induction fuel generalizing i exts c with
+  | zero => simp [wtcFullLoop]
+  | succ n ih =>
+    unfold wtcFullLoop
+    cases hw : exts[i]? with
+    | none => simp
+    | some w =>
+      simp only
+      have := ih (i + 1) (match w.e with
+        | .sni _ => if w.auto then replaceSni exts c.serverName else exts
+        | _ => exts) (wtcExt w.e c)
+      cases he : w.e <;> simp_all [wtcExt]
+
+theorem writeToConfig_fixed (cfg : Cfg) (wexts : List WExt) (sn : Bytes) (sh0 : List (UInt8 × UInt8)) :
+    let r := (writeToConfig cfg wexts sn sh0).2
+    r.cipherSuites = cfg.suites ∧ r.maxVersion = cfg.vers ∧ r.clientRandom = cfg.random ∧
+      r.heartbeat = false ∧ r.extendedRandom = false :=
+  wtcFullLoop_fixed _ _ _ _
+
+/-- plain lists (no Autopopulate): the loop is a left fold of the per-type effects — the last ALPN / curves /
+    signature-algorithm extension wins, EMS / SCT / ticket set their flag — and the extension list is untouched -/
+theorem wtcFullLoop_plain (exts : List WExt) (h : ∀ w ∈ exts, w.auto = false) (fuel i : Nat) (c : WCfg)
+    (hf : exts.length ≤ i + fuel) :
+    wtcFullLoop fuel i exts c = (exts, (exts.drop i).foldl (fun c w => wtcExt w.e c) c) := by
+  induction fuel generalizing i c with
+  | zero =>
+    have : exts.drop i = [] := List.drop_of_length_le (by omega)
+    simp [wtcFullLoop, this]
+  | succ n ih =>
+    unfold wtcFullLoop
+    cases hw : exts[i]? with
+    | none =>
+      have : exts.drop i = [] := List.drop_of_length_le (by simpa using hw)
+      simp [this]
+    | some w =>
+      have hi : i < exts.length := by
+        rcases Nat.lt_or_ge i exts.length with h' | h'
+        · exact h'
+        · rw [List.getElem?_eq_none h'] at hw; cases hw
+      have hwm : w ∈ exts := List.mem_of_getElem? hw
+      have ha := h w hwm
+      have hd : exts.drop i = w :: exts.drop (i + 1) := by
+        rw [List.drop_eq_getElem_cons hi]
+        rw [List.getElem?_eq_getElem hi] at hw
+        cases hw; rfl
+      dsimp only
+      rw [hd, List.foldl_cons]
+      cases he : w.e <;> simp only [ha, Bool.false_eq_true, if_false] <;> exact ih (i + 1) _ (by omega)
+
+theorem writeToConfig_plain (cfg : Cfg) (wexts : List WExt) (sn : Bytes) (sh0 : List (UInt8 × UInt8))
+    (h : ∀ w ∈ wexts, w.auto = false) :
+    writeToConfig cfg wexts sn sh0 = (wexts, wexts.foldl (fun c w => wtcExt w.e c) (wtcInit cfg sn sh0)) := by
+  unfold writeToConfig
+  rw [wtcFullLoop_plain wexts h _ 0 _ (by omega)]
+  simp
+
+/-- the wire model's `forceTicket` / extension rewrite is the one of the full `WriteToConfig` model -/
+theorem writeToConfig_refines (cfg : Cfg) (wexts : List WExt) (sn : Bytes) (sh0 : List (UInt8 × UInt8)) :
+    (writeToConfig cfg wexts sn sh0).1 = (wtcLoop wexts.length 0 wexts sn).1 :=
+  (wtcFullLoop_refines _ _ _ _).1
+
+example : (writeToConfig exampleCfgW [⟨.alpn [[104, 50]], false⟩, ⟨.ems, false⟩, ⟨.alpn [[120]], false⟩] [] []).2.nextProtos
+    = [[120]] := by decide
+
 /-! ### the hypotheses are satisfiable -/
 
 /-- a configuration with every built-in extension type, fresh random with timestamp -/
@@ -521,6 +755,7 @@ example : (marshal exampleCfg false (List.replicate 28 7) 1700000000).isSome = t
 example : exampleCfg.suites.length < 32768 ∧ (marshalExts exampleCfg.exts).length < 65536 := by decide
 example : ∀ random, extsOk (baseHello exampleCfg random) exampleCfg.exts = true := fun _ => rfl
 example : exampleCfg.random.length ≠ 32 ∧ exampleCfg.insertTimestamp = true := by decide
+example : checkExts [.curves [29, 23], .points [0], .ems] = true ∧ checkExts [.curves [29, 30]] = false := by decide
 example : extOk (.sni [[97, 46, 98]]) ClientHello.empty = true ∧ extOk (.alpn [[104, 50]]) ClientHello.empty = true ∧
     extOk (.curves [29]) ClientHello.empty = true ∧ extOk (.points [0]) ClientHello.empty = true ∧
     extOk (.sigalgs [0x0401]) ClientHello.empty = true ∧ extOk (.ticket [1]) ClientHello.empty = true := by decide
